@@ -676,9 +676,18 @@ def rule_6(ctx):
         def add(self, value, ttype, subtype=''):
             self.added.append((value, ttype))
             return Rec(tvalue=value, ttype=ttype, tsubtype=subtype)
+    # the names of the text being scanned and of the read position: what the single-character reader of the branch test subscripts
+    textname, posname = 'formula', 'offset'
+    for c in ast.walk(pct[0].test):
+        if isinstance(c, ast.Call) and isinstance(c.func, ast.Name) and not c.args:
+            for n_ in ast.walk(fn):
+                if isinstance(n_, ast.FunctionDef) and n_.name == c.func.id and n_ is not fn:
+                    for r_ in ast.walk(n_):
+                        if isinstance(r_, ast.Subscript) and isinstance(r_.value, ast.Name) and isinstance(r_.slice, ast.Name):
+                            textname, posname = r_.value.id, r_.slice.id
     for literal in ('50', '2.5'):
         sink = _Out()
-        env = {listvar: sink, textvar: literal, 'formula': literal + '%', 'offset': len(literal), 'self': Rec(cls='pkg:tokenizer:ExcelParser')}
+        env = {listvar: sink, textvar: literal, textname: literal + '%', posname: len(literal), 'self': Rec(cls='pkg:tokenizer:ExcelParser')}
         it = Interp(ctx.a, tm, env, self_class='pkg:tokenizer:ExcelParser', scope_fn=fn)
         it.run([pct[0]])
         kinds_ = [t for _, t in sink.added]
